@@ -9,7 +9,7 @@ globals().update(
         targets=["JaqalProofs.Props.C10", "JaqalProofs.Props.ParsedC10", "JaqalProofs.Props.ParsedEx", "JaqalProofs.Props.C10Text", "JaqalProofs.Props.C10Text2"],
         extra_run=extra_run,
         known_matcher=matches_known,
-        diffs=[("harness.agents.c10_diff", 500, 1500), ("harness.agents.c10_scale", 88, 300), ("harness.agents.c10_traps", 350, 2000)],
+        diffs=[("harness.agents.c10_diff", 500, 1500), ("harness.agents.c10_scale", 88, 300), ("harness.agents.c10_traps", 350, 2000), ("harness.agents.c10_deep", 150, 1500)],
         trusted=[
             STD_TRUST,
             "composition of the pass models (ExpandMacros, ExpandSubcircuits, FillIn) and of parse_jaqal_string's flag handling in JaqalModel/Model/Passes.lean; the pass orders of parse_jaqal_string / run_jaqal_circuit / parse_jaqal_output_list are REGENERATED from the Python ASTs on every run (harness/agents/c10_extract.py) and compared with the model's `pipelines` table",
